@@ -31,6 +31,48 @@ def summarise(out):
     return s
 
 
+def _flint(x):
+    f = float(x)
+    return int(f) if f == int(f) else f
+
+
+def summary_line(out):
+    """the canonical one-line summary the Lean reader model prints (numbers as repr of the stored Python value)"""
+    doms = sorted('%s:%s:%s' % (n, d.length, d.sequence if d.sequence is not None else '-') for n, d in out['domains'].items())
+    strands = sorted('%s=%s' % (n, ' '.join(str(x) for x in st.sequence)) for n, st in out['strands'].items())
+    cplxs = sorted('%s=%s/%s@%s' % (n, ' '.join(str(x) for x in c.sequence), ''.join(c.structure),
+                                    ('%s,%r,%s' % (c.concentration[0], c.concentration[1], c.concentration[2])) if c.concentration is not None else '-')
+                   for n, c in out['complexes'].items())
+    macs = sorted('%s=%s' % (n, ','.join(sorted(c.name for c in m.complexes))) for n, m in out['macrostates'].items())
+    def rx(r):
+        k, u = r.rate_constant
+        return '%s->%s:%s:%r:%s' % ('+'.join(sorted(x.name for x in r.reactants)), '+'.join(sorted(x.name for x in r.products)), r.rtype, k, u)
+    return 'read ok D[%s] S[%s] C[%s] M[%s] DET[%s] CON[%s] other=%d' % (
+        ' '.join(doms), ' '.join(strands), ' ; '.join(cplxs), ' '.join(macs), ' '.join(sorted(rx(r) for r in out['det_reactions'])),
+        ' '.join(sorted(rx(r) for r in out['con_reactions'])), len(out['other']))
+
+
+def canon_model_line(line):
+    """normalise the numeric literals of the model's summary the way the implementation stores them"""
+    import re
+    if not line.startswith('read ok '):
+        return line
+    def conc(m):
+        try:
+            return '@%s,%r,%s' % (m.group(1), float(m.group(2)), m.group(3))
+        except ValueError:
+            return m.group(0)
+    line = re.sub(r'@([a-z]+),([^,\s\];]+),([a-zA-Z]+)', conc, line)
+    def rate(m):
+        try:
+            return ':%s:%r:%s' % (m.group(1), _flint(m.group(2)), m.group(3))
+        except ValueError:
+            return m.group(0)
+    head, tail = line.split('] DET[', 1)
+    tail = re.sub(r':([A-Za-z0-9-]+):([0-9.e+-]+):(\S+?)(?=[ \]])', rate, tail)
+    return head + '] DET[' + tail
+
+
 def identity_checks(out, bc):
     """objects referenced by name are the identical singletons"""
     bad = []
@@ -105,10 +147,12 @@ def read_job(job):
             out = objectio.read_pil(job['text'], ignore=job.get('ignore'))
         except Exception as e:
             res['outcome'] = 'err ' + type(e).__name__
+            res['line'] = 'read err ' + (type(e).__name__ if type(e).__name__ in DECLARED else 'Fault ' + type(e).__name__)
             e = None
             out = None
         if out is not None:
             res['outcome'] = 'ok'
+            res['line'] = summary_line(out)
             if job.get('mode') == 'full':
                 res['summary'] = summarise(out)
                 res['identity'] = identity_checks(out, bc)
